@@ -170,6 +170,10 @@ fn main() {
             println!("{}", if still { "STILL-FAILS" } else { "PASSES-NOW" });
             std::process::exit(if still { 1 } else { 0 });
         }
+        "source-record" => {
+            let s = record_reader::record_source(&get("out", "work/source.ndjson"), seed, get("n", "200").parse().unwrap(), get("max-len", "200").parse().unwrap());
+            println!("SUMMARY {}", serde_json::to_string(&s).unwrap());
+        }
         "reader-rerun" => {
             let still = replay_reader::rerun(&get("file", ""));
             println!("{}", if still { "STILL-FAILS" } else { "PASSES-NOW" });
